@@ -4,13 +4,15 @@ package autodiff
 // with the receiver and operands in the requested storage kinds and compared
 // element-wise with the all-dense run on the same symbolic values.
 
-// element states per position, base-3 digits of a pattern: 0 = symbolic
-// non-zero, 1 = zero (absent in a sparse container), 2 = explicitly stored zero
+// element states per position, base-4 digits of a pattern: 0 = symbolic
+// non-zero, 1 = zero (absent in a sparse container), 2 = explicitly stored
+// zero, 3 = value exactly zero carrying a symbolic derivative (magic element
+// types; a stored zero otherwise)
 func verifDigit(pat, idx int) int {
 	for k := 0; k < idx; k++ {
-		pat /= 3
+		pat /= 4
 	}
-	return pat % 3
+	return pat % 4
 }
 
 func verifIsSparse(kind int) bool { return kind == 2 || kind == 3 || kind == 6 || kind == 7 }
@@ -47,6 +49,10 @@ func verifVecVals3(kind int, name string, n, pat int, withDeriv bool) *verifVecV
 				v.d[i] = VerifFinite64(name + ".d")
 			}
 		}
+		if v.st[i] == 3 && withDeriv {
+			v.d[i] = VerifFinite64(name + ".d")
+			VerifAssume(v.d[i] != 0)
+		}
 	}
 	return v
 }
@@ -72,6 +78,8 @@ func (v *verifVecVals) vector(kind int) Vector {
 			verifSetElem(r.At(i), v.x[i], v.d[i], wd)
 		case 2:
 			r.At(i).SetFloat64(0) // explicit stored zero (creates the entry in sparse storage)
+		case 3:
+			verifSetElem(r.At(i), 0, v.d[i], wd)
 		}
 	}
 	return r
@@ -97,6 +105,8 @@ func (m *verifMatVals) matrix(kind int) Matrix {
 				verifSetElem(r.At(i, j), m.v.x[k], m.v.d[k], wd)
 			case 2:
 				r.At(i, j).SetFloat64(0)
+			case 3:
+				verifSetElem(r.At(i, j), 0, m.v.d[k], wd)
 			}
 		}
 	}
